@@ -146,6 +146,208 @@ theorem C11_assembly (caller : ℝ → ℝ → ℝ → ℝ → ℝ × ℝ × ℝ
     · simp
 
 
+/-! ### the assembled matrix is the mass-weighted second derivative of the total energy -/
+
+/-- **gradient of the total energy**: `∂U/∂X_{pα} = G_{pα}` for `U = ½ Σ_{i≠j in cutoff} φ_ij(X_i − X_j + c_ij)` with symmetric pair
+parameters, symmetric pair set and antisymmetric lattice shifts -/
+theorem C11_energy_gradient (n d : ℕ) (cut : ℕ → ℕ → Bool) (hcut : ∀ i, cut i i = false)
+    (hcs : ∀ i j, cut j i = cut i j)
+    (s s1 : ℕ → ℕ → ℝ → ℝ) (kk rc : ℕ → ℕ → ℝ) (c : ℕ → ℕ → ℕ → ℝ) (X : ℕ → ℕ → ℝ)
+    (hanti : ∀ i j k, c j i k = - c i j k)
+    (hsym : ∀ i j, s1 j i = s1 i j ∧ kk j i = kk i j)
+    (hpos : ∀ i j, cut i j = true → 0 < nrm2 d (sep c X i j))
+    (hs : ∀ i j, cut i j = true →
+      HasDerivAt (s i j) (s1 i j (rad d (sep c X i j))) (rad d (sep c X i j)))
+    (p α : ℕ) (hp : p < n) (hα : α < d) :
+    HasDerivAt (fun t => totalEnergy n d cut s kk rc c (updPos X p α t))
+      (gradField n d cut s1 kk c X p α) (X p α) := by
+  set g : ℕ → ℝ := fun j => gradPhi (s1 p j) (kk p j) d (sep c X p j) α with hg
+  have hterm : ∀ i ∈ range n, ∀ j ∈ range n, HasDerivAt
+      (fun t => if cut i j = true then pairEnergy (s i j) (kk i j) (rc i j) d (sep c (updPos X p α t) i j) else 0)
+      ((if i = p then (if cut p j = true then g j else 0) else 0)
+        + (if j = p then (if cut i p = true then g i else 0) else 0)) (X p α) := by
+    intro i _ j _
+    by_cases hc : cut i j = true
+    · have hji : j ≠ i := by rintro rfl; rw [hcut] at hc; exact Bool.false_ne_true hc
+      simp only [hc, if_true]
+      have hG := C11_pair_gradient (s i j) (s1 i j) (kk i j) (rc i j) d α hα (sep c X i j) (hpos i j hc) (hs i j hc)
+      by_cases hip : i = p
+      · subst hip
+        have hjp : ¬ j = i := hji
+        simp only [if_true, hc, hjp, if_false, add_zero]
+        have hin : HasDerivAt (fun t : ℝ => t - X j α + c i j α) 1 (X i α) := by
+          simpa using ((hasDerivAt_id (X i α)).sub_const (X j α)).add_const (c i j α)
+        have hv : sep c X i j α = X i α - X j α + c i j α := rfl
+        rw [hv] at hG
+        have := HasDerivAt.comp (X i α) hG hin
+        simp only [mul_one] at this
+        refine this.congr_of_eventuallyEq (Filter.Eventually.of_forall fun t => ?_)
+        simp only [Function.comp, sep_upd_left c X i j α t hji]
+      · simp only [hip, if_false, zero_add]
+        by_cases hjp : j = p
+        · subst hjp
+          simp only [if_true, hc]
+          have hin : HasDerivAt (fun t : ℝ => X i α - t + c i j α) (-1) (X j α) := by
+            simpa using ((hasDerivAt_id (X j α)).const_sub (X i α)).add_const (c i j α)
+          have hv : sep c X i j α = X i α - X j α + c i j α := rfl
+          rw [hv] at hG
+          have := HasDerivAt.comp (X j α) hG hin
+          simp only [mul_neg, mul_one] at this
+          have e : - gradPhi (s1 i j) (kk i j) d (sep c X i j) α = g i := by
+            rw [hg]
+            simp only
+            rw [sep_swap c hanti X i j, gradPhi_neg, (hsym i j).1, (hsym i j).2]
+          rw [e] at this
+          refine this.congr_of_eventuallyEq (Filter.Eventually.of_forall fun t => ?_)
+          simp only [Function.comp, sep_upd_right c X i j α t hji]
+        · simp only [hjp, if_false]
+          have : (fun t => pairEnergy (s i j) (kk i j) (rc i j) d (sep c (updPos X p α t) i j))
+              = fun _ => pairEnergy (s i j) (kk i j) (rc i j) d (sep c X i j) := by
+            funext t; rw [sep_upd_other c X i j p α t (fun e => hip e.symm) (fun e => hjp e.symm)]
+          rw [this]
+          exact hasDerivAt_const _ _
+    · have hc' : cut i j = false := by simpa using hc
+      simp only [hc', Bool.false_eq_true, if_false]
+      have z : ((if i = p then (if cut p j = true then g j else 0) else 0)
+          + (if j = p then (if cut i p = true then g i else 0) else 0)) = 0 := by
+        by_cases hip : i = p
+        · subst hip
+          by_cases hjp : j = i
+          · subst hjp; simp [hcut]
+          · simp [hc', hjp]
+        · by_cases hjp : j = p
+          · subst hjp; simp [hip, hc']
+          · simp [hip, hjp]
+      rw [z]
+      exact hasDerivAt_const _ _
+  have hsum := HasDerivAt.fun_sum (u := range n) (x := X p α)
+    (fun i hi => HasDerivAt.fun_sum (u := range n) (hterm i hi))
+  have hfin := hsum.const_mul (1 / 2 : ℝ)
+  unfold totalEnergy
+  refine hfin.congr_deriv ?_
+  unfold gradField
+  simp only [Finset.sum_add_distrib]
+  have h1 : ∑ i ∈ range n, ∑ j ∈ range n, (if i = p then (if cut p j = true then g j else 0) else 0)
+      = ∑ j ∈ range n, (if cut p j = true then g j else 0) := by
+    have : ∀ i ∈ range n, ∑ j ∈ range n, (if i = p then (if cut p j = true then g j else 0) else 0)
+        = if i = p then ∑ j ∈ range n, (if cut p j = true then g j else 0) else 0 := by
+      intro i _; by_cases h : i = p <;> simp [h]
+    rw [Finset.sum_congr rfl this, Finset.sum_ite_eq', if_pos (mem_range.mpr hp)]
+  have h2 : ∑ i ∈ range n, ∑ j ∈ range n, (if j = p then (if cut i p = true then g i else 0) else 0)
+      = ∑ i ∈ range n, (if cut p i = true then g i else 0) := by
+    refine Finset.sum_congr rfl fun i _ => ?_
+    rw [Finset.sum_ite_eq', if_pos (mem_range.mpr hp), hcs p i]
+  rw [h1, h2]
+  ring
+
+/-- **Jacobian of the gradient field**: for the energy of the pairs inside the cutoff (pair set and removed lattice vectors
+frozen — they are locally constant away from `d = r_c` and minimum-image ties), the partial derivative of `∂U/∂X_{pα}` in
+coordinate `(q, β)` is the plain Hessian `specH` built from the closed-form pair blocks: `Σ_k B_pk` on the diagonal block,
+`−B_pq` off it.  Any number of particles, any dimension, any per-pair radial potentials. -/
+theorem C11_gradient_jacobian (n d : ℕ) (cut : ℕ → ℕ → Bool) (hcut : ∀ i, cut i i = false)
+    (s1 s2 : ℕ → ℕ → ℝ → ℝ) (kk : ℕ → ℕ → ℝ) (c : ℕ → ℕ → ℕ → ℝ) (X : ℕ → ℕ → ℝ)
+    (hpos : ∀ i j, cut i j = true → 0 < nrm2 d (sep c X i j))
+    (hs : ∀ i j, cut i j = true →
+      HasDerivAt (s1 i j) (s2 i j (rad d (sep c X i j))) (rad d (sep c X i j)))
+    (p q α β : ℕ) (hq : q < n) (hβ : β < d) :
+    HasDerivAt (fun t => gradField n d cut s1 kk c (updPos X q β t) p α)
+      (specH n cut (fun i j a b => closedB (sep c X i j) (rad d (sep c X i j)) (s1 i j (rad d (sep c X i j))) (kk i j)
+        (s2 i j (rad d (sep c X i j))) a b) p α q β) (X q β) := by
+  set B : ℕ → ℕ → ℕ → ℕ → ℝ := fun i j a b => closedB (sep c X i j) (rad d (sep c X i j))
+    (s1 i j (rad d (sep c X i j))) (kk i j) (s2 i j (rad d (sep c X i j))) a b with hB
+  -- derivative of the j-th term
+  have hterm : ∀ j ∈ range n, HasDerivAt
+      (fun t => if cut p j = true then gradPhi (s1 p j) (kk p j) d (sep c (updPos X q β t) p j) α else 0)
+      (if cut p j = true then (if q = p then B p j α β else if q = j then - B p j α β else 0) else 0) (X q β) := by
+    intro j _
+    by_cases hc : cut p j = true
+    · have hjp : j ≠ p := by rintro rfl; rw [hcut] at hc; exact Bool.false_ne_true hc
+      simp only [hc, if_true]
+      have hH := radial_hessian (s1 p j) (s2 p j) (kk p j) d α β hβ (sep c X p j) (hpos p j hc) (hs p j hc)
+      by_cases hqp : q = p
+      · subst hqp
+        simp only [if_true]
+        have hin : HasDerivAt (fun t : ℝ => t - X j β + c q j β) 1 (X q β) := by
+          simpa using ((hasDerivAt_id (X q β)).sub_const (X j β)).add_const (c q j β)
+        have hv : sep c X q j β = X q β - X j β + c q j β := rfl
+        rw [hv] at hH
+        have := HasDerivAt.comp (X q β) hH hin
+        simp only [mul_one] at this
+        refine this.congr_of_eventuallyEq (Filter.Eventually.of_forall fun t => ?_)
+        simp only [Function.comp, sep_upd_left c X q j β t hjp]
+      · simp only [hqp, if_false]
+        by_cases hqj : q = j
+        · subst hqj
+          simp only [if_true]
+          have hin : HasDerivAt (fun t : ℝ => X p β - t + c p q β) (-1) (X q β) := by
+            simpa using ((hasDerivAt_id (X q β)).const_sub (X p β)).add_const (c p q β)
+          have hv : sep c X p q β = X p β - X q β + c p q β := rfl
+          rw [hv] at hH
+          have := HasDerivAt.comp (X q β) hH hin
+          simp only [mul_neg, mul_one] at this
+          refine this.congr_of_eventuallyEq (Filter.Eventually.of_forall fun t => ?_)
+          simp only [Function.comp, sep_upd_right c X p q β t hjp]
+        · simp only [hqj, if_false]
+          have : (fun t => gradPhi (s1 p j) (kk p j) d (sep c (updPos X q β t) p j) α)
+              = fun _ => gradPhi (s1 p j) (kk p j) d (sep c X p j) α := by
+            funext t; rw [sep_upd_other c X p j q β t hqp hqj]
+          rw [this]
+          exact hasDerivAt_const _ _
+    · simp only [hc, if_false]
+      exact hasDerivAt_const _ _
+  have hsum := HasDerivAt.fun_sum hterm
+  unfold gradField
+  refine hsum.congr_deriv ?_
+  unfold specH
+  rw [sumRange_eq]
+  by_cases hpq : p = q
+  · subst hpq
+    simp only [if_true]
+    refine Finset.sum_congr rfl fun j _ => ?_
+    by_cases hj : j = p
+    · subst hj; simp [hcut]
+    · simp [hj]
+  · have hqp : ¬ q = p := fun e => hpq e.symm
+    simp only [hpq, hqp, if_false]
+    have : ∀ j ∈ range n, (if cut p j = true then (if q = j then - B p j α β else 0) else 0)
+        = if q = j then (if cut p q = true then - B p q α β else 0) else 0 := by
+      intro j _
+      by_cases h : q = j
+      · subst h; simp
+      · simp [h]
+    rw [Finset.sum_congr rfl this, Finset.sum_ite_eq, if_pos (mem_range.mpr hq)]
+
+
+/-- **the saved matrix is the mass-weighted second derivative**: if the model's inputs are those of a configuration `X`
+(`disp i j = X_i − X_j + c_ij`, `caller` returns `[s1, s1rc, s2]` of per-pair potentials with `s1' = s2`), then in 2D and 3D
+`∂/∂X_{jb} (∂U/∂X_{ia}) = √m_i · √m_j · hessian[(i,a),(j,b)]`, i.e. `hessian = M^(-1/2) (∂²U/∂r_i∂r_j) M^(-1/2)`. -/
+theorem C11_hessian_is_second_derivative (caller : ℝ → ℝ → ℝ → ℝ → ℝ × ℝ × ℝ) (S : Sys ℝ) (hd : S.d = 2 ∨ S.d = 3)
+    (hm : ∀ i < S.n, 0 < massOf S i) (c : ℕ → ℕ → ℕ → ℝ) (X : ℕ → ℕ → ℝ)
+    (hdisp : ∀ i j, S.disp i j = sep c X i j)
+    (s1 s2 : ℕ → ℕ → ℝ → ℝ) (kk : ℕ → ℕ → ℝ)
+    (hcall : ∀ i j, derivs (realPrims caller) S i j =
+      (s1 i j (rad S.d (sep c X i j)), kk i j, s2 i j (rad S.d (sep c X i j))))
+    (hpos : ∀ i j, inCut (realPrims caller) S i j = true → 0 < nrm2 S.d (sep c X i j))
+    (hs : ∀ i j, inCut (realPrims caller) S i j = true →
+      HasDerivAt (s1 i j) (s2 i j (rad S.d (sep c X i j))) (rad S.d (sep c X i j)))
+    (i j a b : ℕ) (hi : i < S.n) (hj : j < S.n) (ha : a < S.d) (hb : b < S.d) :
+    HasDerivAt (fun t => gradField S.n S.d (inCut (realPrims caller) S) s1 kk c (updPos X j b t) i a)
+      (hessian (realPrims caller) S (i * S.d + a) (j * S.d + b)
+        * (Real.sqrt (massOf S i) * Real.sqrt (massOf S j))) (X j b) := by
+  have J := C11_gradient_jacobian S.n S.d (inCut (realPrims caller) S) (inCut_self caller S) s1 s2 kk c X hpos hs
+    i j a b hj hb
+  refine J.congr_deriv ?_
+  rw [C11_assembly caller S hm i j a b hi hj ha hb]
+  unfold specD
+  have h1 : Real.sqrt (massOf S i) ≠ 0 := (Real.sqrt_pos.mpr (hm i hi)).ne'
+  have h2 : Real.sqrt (massOf S j) ≠ 0 := (Real.sqrt_pos.mpr (hm j hj)).ne'
+  rw [div_mul_cancel₀ _ (mul_ne_zero h1 h2)]
+  apply specH_congr
+  intro k hk
+  have hr : rad S.d (sep c X i k) ≠ 0 := (Real.sqrt_pos.mpr (hpos i k hk)).ne'
+  rw [(C11_model_block caller S i k a b).1, hcall i k, hdisp i k]
+  exact (C11_block_entries S.d hd _ _ _ _ _ hr a b ha hb).symm
+
 /-! ### symmetry -/
 
 /-- **symmetry**: with minimum-image displacements that are odd under exchange of the particles (C02) and symmetric
